@@ -235,6 +235,8 @@ def render_lines(rng, tier: str, budget, all_fns=None, eols_quick=((0, "\n"), (2
         i = rng.choice([0, 1, 3])
         e = rng.choice(["\n", "", "<!>"])
         lines.append(f"render_list {enodes(ks)} {i} {es(e)} {eb(rng.random() < 0.6)} {eb(rng.random() < 0.85)}")
+    lines += deep_chain_lines(rng, 40 if tier == "quick" else 400)
+    scopes.append({"scope": "boundary stream: nesting depth and indent argument in " + str(BOUNDARY_LEVELS), "exhaustive": False})
     return lines, scopes
 
 
@@ -281,3 +283,27 @@ def alias_trees(rng: random.Random, count: int):
             attrs = [("title", ("h", s)), ("alt", ("p", s))] if rng.random() < 0.5 else [("alt", ("p", s)), ("title", ("h", s))]
         out.append(("tag", rng.choice(["div", "span", "section"]), rng.random() < 0.7, attrs, kids))
     return out
+
+
+# boundary depths / indents ------------------------------------------------------------------------------
+BOUNDARY_LEVELS = [14, 15, 16, 17, 18, 31, 32, 33, 63, 64, 65, 100]
+
+
+def deep_chain_lines(rng: random.Random, n_extra: int = 40):
+    """nested chains and large `indent` arguments around typical table / cache sizes (16, 32, 64, …)"""
+    from wire import enode, enodes, es, eb
+    lines = []
+    for d in BOUNDARY_LEVELS:
+        for ws in (True, False):
+            leaf = [("text", "t"), ("tag", "span", False, [], [("text", "s")])]
+            t = ("tag", "p", True, [], leaf)
+            for k in range(d):
+                t = ("tag", "div" if ws else "span", ws, [], [t] + ([("text", "x")] if k % 5 == 0 else []))
+            lines.append(f"render_tag {enode(t)} 0 {es(chr(10))}")
+        t = ("tag", "div", True, [], [("tag", "p", True, [], [("text", "a"), ("tag", "b", False, [], [("text", "c")])]), ("text", "z")])
+        lines.append(f"render_tag {enode(t)} {d} {es(chr(10))}")
+        lines.append(f"render_list {enodes([t, ('text', 'q'), t])} {d} {es(chr(13) + chr(10))} T T")
+    for _ in range(n_extra):
+        t = rand_tag(rng, rng.randint(2, 5))
+        lines.append(f"render_tag {enode(t)} {rng.choice(BOUNDARY_LEVELS)} {es(rng.choice([chr(10), '', '<!>']))}")
+    return lines
